@@ -342,8 +342,9 @@ def _case_sync(rec, cls, clsname, data, maxlen, cs, pattern, history):
                                              'pattern': pattern, 'history': hist, 'step': i, 'state': inv})
             return False
         if want[0] != 'ok':
+            # a DelimiterError is not the end: what was read up to the cap is gone (nobody got it), the delimiter
+            # check itself consumed nothing - the application may catch the error and read on
             rec.count('sync.history_ended_by_delimiter_error')
-            break
     if src.problems:
         rec.violation('sync-source-' + src.problems[0][0], {'reader': clsname, 'data': data, 'maxlen': maxlen,
                                                             'chunk_size': cs, 'pattern': pattern, 'history': hist,
@@ -377,7 +378,6 @@ def _case_async(rec, data, cs, chunking, history):
             return False
         if want[0] != 'ok':
             rec.count('async.history_ended_by_delimiter_error')
-            break
         inv = async_invariants(rd)
         if inv:
             wit.update(state=inv)
@@ -597,7 +597,7 @@ def run(rec):
                 'x every operation history up to length H over ~20 op shapes (exhaustive, sharded by index), then random '
                 'data to 40 KB / histories to 15 ops / nested delimit; each op compared with a flat cursor. '
                 'non-trivial = history contains a delimiter/peek/delimit operation; distinct by (reader, data, config, history)')
-    rec.assumptions = ['cursor model vlib/models/cursor.py', 'a history ends at the first DelimiterError',
+    rec.assumptions = ['cursor model vlib/models/cursor.py', 'after a DelimiterError the history goes on: the bytes read up to the cap are gone, the failed delimiter check consumed nothing',
                        'parent reader is compared again only after a delimit() child was exhausted']
     quick = rec.tier == 'quick'
     L = 3 if (quick or rec.mode != 'pure') else 4
